@@ -304,10 +304,143 @@ def _h_gate(nlen):
     return fn
 
 
+# ---------------------------------------------------------------- (c) the map is the user's, not the connection's
+PERSIST_OPS = [b'PUTSCRIPT "x" "keep;"', b'PUTSCRIPT "mine" "stop;"', b'SETACTIVE ""', b'SETACTIVE "x"', b'DELETESCRIPT "mine"',
+               b'DELETESCRIPT "x"', b'RENAMESCRIPT "x" "y"', 'other-connection', 'relogin']
+
+
+def _run_sieve(g, conn_mod, login, cfg, feed):
+    import asyncio
+    from contextlib import AsyncExitStack
+    from proxyprotocol.sock import SocketInfoLocal
+    tr = conn_mod.Transport(feed, local=True)
+
+    async def main():
+        conn = g['ManageSieveConnection'](login, cfg, tr, tr, SocketInfoLocal(tr))
+        async with AsyncExitStack() as stack:
+            g['connection_exit'].set(stack)
+            await conn.run()
+    asyncio.run(main())
+    return bytes(x if isinstance(x, int) else 63 for x in tr.output())
+
+
+def _listing(out):
+    """(names -> active?) parsed from the last LISTSCRIPTS answer in `out`"""
+    import re
+    names = {}
+    completions = 0
+    for ln in out.split(b'\r\n'):
+        if ln[:2] in (b'OK', b'NO') or ln[:3] == b'BYE':
+            completions += 1
+            continue
+        # greeting capabilities end with the 1st completion line, AUTHENTICATE with the 2nd, LISTSCRIPTS with the 3rd
+        if completions != 2:
+            continue
+        m = re.match(rb'^"([^"]*)"( ACTIVE)?$', ln)
+        if m:
+            names[m.group(1)] = bool(m.group(2))
+    return names
+
+
+def persistence(g, sim, conn_mod, ops, empty_start=False):
+    """connection A runs `ops`; 'other-connection' = a second connection of the same user logs in and lists while A
+    stays connected; 'relogin' = UNAUTHENTICATE + AUTHENTICATE on A.  Afterwards a fresh connection must see exactly
+    what a plain map says.  returns error|None"""
+    import threading
+    cfg = sim.make_config(g)
+    login = g['Login'](cfg)
+    login.users_dict['alice'] = g['UserMetadata'](cfg, 'alice', password=cfg.hash_context.hash('pw'))
+    fs = g['FilterSet']()
+    model = {}
+    active = [None]
+    if not empty_start:
+        sim.run_coro(fs.put('mine', b'keep;'))
+        sim.run_coro(fs.set_active('mine'))
+        model = {b'mine': b'keep;'}
+        active = [b'mine']
+    cfg.set_cache['alice'] = (g['MailboxSet'](), fs)
+    auth = b'AUTHENTICATE "PLAIN" "' + PLAIN + b'"\r\n'
+    side = []
+
+    def other_connection(tr):
+        # a whole second connection, run to completion on its own loop in a helper thread while A is parked in a read
+        res = {}
+
+        def work():
+            try:
+                res['out'] = _run_sieve(g, conn_mod, login, cfg, [auth, b'LISTSCRIPTS\r\n', b'LOGOUT\r\n'])
+            except Exception as exc:   # noqa: BLE001
+                res['exc'] = exc
+        t = threading.Thread(target=work)
+        t.start()
+        t.join()
+        side.append(res)
+        return None
+    feed = [auth]
+    for op in ops:
+        if op == 'other-connection':
+            feed.append(other_connection)
+        elif op == 'relogin':
+            feed += [b'UNAUTHENTICATE\r\n', auth]
+        else:
+            feed.append(op + b'\r\n')
+            parts = op.split(b'"')
+            if op.startswith(b'PUTSCRIPT'):
+                model[parts[1]] = parts[3]
+            elif op.startswith(b'SETACTIVE'):
+                if parts[1] == b'':
+                    active[0] = None
+                elif parts[1] in model:
+                    active[0] = parts[1]
+            elif op.startswith(b'DELETESCRIPT'):
+                if parts[1] in model and active[0] != parts[1]:
+                    del model[parts[1]]
+            elif op.startswith(b'RENAMESCRIPT'):
+                if parts[1] in model and parts[3] not in model:
+                    model[parts[3]] = model.pop(parts[1])
+                    if active[0] == parts[1]:
+                        active[0] = parts[3]
+    feed.append(b'LOGOUT\r\n')
+    try:
+        _run_sieve(g, conn_mod, login, cfg, feed)
+        for res in side:
+            if 'exc' in res:
+                return 'the second connection raised %r' % (res['exc'],)
+        out = _run_sieve(g, conn_mod, login, cfg, [auth, b'LISTSCRIPTS\r\n'] +
+                         [b'GETSCRIPT "%s"\r\n' % n for n in sorted(model)] + [b'LOGOUT\r\n'])
+    except Exception as exc:   # noqa: BLE001
+        return 'connection raised %r' % (exc,)
+    got = _listing(out)
+    want = {n: (active[0] == n) for n in model}
+    if got != want:
+        return 'a later connection lists %r, the map says %r' % (got, want)
+    for n in model:
+        if model[n] not in out:
+            return 'a later connection does not get the content stored for %r' % n
+    return None
+
+
+def _h_persistence(d):
+    def fn(eng):
+        from pysymex import Outcome
+        from checks import _conn
+        empty = bool(eng.flip('empty_start'))
+        ops = [PERSIST_OPS[eng.choose('op%d' % i, len(PERSIST_OPS))] for i in range(d)]
+        err = persistence(_g, _g['_sim'], _conn, ops, empty)
+        return Outcome(err is None, witness=lambda m: {'ops': [o if isinstance(o, str) else o.decode() for o in ops],
+                                                       'empty_start': empty}, info=err)
+    return fn
+
+
 def harnesses(tier):
     from pysymex.runner import Harness
     q = tier == 'quick'
     hs = []
+    for d in ([3] if q else [3, 4]):
+        hs.append(Harness('map_across_connections[ops=%d]' % d, _h_persistence(d),
+                          {'operations_on_connection_A': d, 'ops': [o if isinstance(o, str) else o.decode() for o in PERSIST_OPS],
+                           'then': 'a fresh connection lists and gets every script; compared with a plain map'},
+                          replay='persist', task_budget=60))
     for ninit, d in ([(0, 1), (1, 1), (2, 1), (1, 2)] if q else [(0, 1), (1, 1), (2, 1), (1, 2), (2, 2), (1, 3)]):
         hs.append(Harness('map_step[stored=%d,commands=%d]' % (ninit, d), _h_step(ninit, d),
                           {'stored_before': ninit, 'commands': d, 'names': 'symbolic'}, replay='step', task_budget=60))
@@ -329,6 +462,10 @@ def replay(harness, w):
     from pymap.user import UserMetadata
     g.update(locals())
     bad = []
+    if harness == 'persist':
+        err = persistence(g, _sim, _conn, [o if o in ('other-connection', 'relogin') else o.encode() for o in w['ops']],
+                          w.get('empty_start', False))
+        return {'violates': err is not None, 'detail': err, 'category': (err or '')[:60]}
 
     def check(c, msg=''):
         if not c:
